@@ -434,9 +434,9 @@ def r3(ctx, r):
     for h in hcalls:
         b = h.block
         r.instance()
-        c = b.cond
-        ok = c is not None and strip_casts(c).get("k") == "un" and strip_casts(c)["op"] == "!" and strip_casts(strip_casts(c)["v"]) is h.node
-        tb = ps.blocks[b.succs[0]] if ok else None
+        c, st, sf = common.branch(b)
+        ok = c is not None and c is h.node and sf is not None
+        tb = ps.blocks[sf] if ok else None
         r.expect(ok and any(e.kind == "stmt" and e.node.get("k") == "ret" and const_value(strip_casts(e.node.get("v") or {})) == 0 for e in tb.elems), ps, h, "hex failure ignored",
                  "a failing _parseHex4 does not make _parseString return false", okdesc="hex failure → return false")
     # hex4: 4 digits, base 16, all consumed
